@@ -341,13 +341,18 @@ def select__child_path(self: XPathToken, context: ta.ContextType = None) \
         if isinstance(context.root, DocumentNode):
             yield context.root
     elif len(self) == 1:
+        item = context.item
         if isinstance(context.document, DocumentNode):
             context.item = context.document
         elif context.root is None or isinstance(context.root.parent, ElementNode):
             return  # No root or a rooted subtree -> document root produce []
         else:
             context.item = context.root  # A fragment or a schema node
-        yield from self[0].select(context)
+
+        try:
+            yield from self[0].select(context)
+        finally:
+            context.item = item  # an absolute path doesn't change the focus of the caller
     else:
         items: set[ta.ItemType] = set()
         nodes: list[XPathNode] = []
@@ -403,6 +408,7 @@ def select__descendant_path(self: XPathToken, context: ta.ContextType = None) \
         yield from sorted(nodes, key=node_position)
 
     else:
+        item = context.item
         if isinstance(context.document, DocumentNode):
             context.item = context.document
         elif context.root is None or isinstance(context.root.parent, ElementNode):
@@ -411,17 +417,20 @@ def select__descendant_path(self: XPathToken, context: ta.ContextType = None) \
             context.item = context.root  # A fragment or a schema node
 
         items = set()
-        for _ in context.iter_descendants():
-            for result in self[0].select(context):
-                if not isinstance(result, XPathNode):
-                    items.add(result)
-                elif result in items:
-                    pass
-                elif isinstance(result, ElementNode):
-                    if result.value not in items:
+        try:
+            for _ in context.iter_descendants():
+                for result in self[0].select(context):
+                    if not isinstance(result, XPathNode):
                         items.add(result)
-                else:
-                    items.add(result)
+                    elif result in items:
+                        pass
+                    elif isinstance(result, ElementNode):
+                        if result.value not in items:
+                            items.add(result)
+                    else:
+                        items.add(result)
+        finally:
+            context.item = item  # an absolute path doesn't change the focus of the caller
 
         yield from sorted(items, key=node_position)
 
